@@ -12,6 +12,8 @@ package seq
 import (
 	"crypto/sha256"
 	"fmt"
+	"os"
+	"strconv"
 	"sync"
 	"sync/atomic"
 	"time"
@@ -106,6 +108,13 @@ func Explore(c Config) *Stats {
 		}
 		rt.SlotSet(0, c.Name, rp.Ops)
 		o1, o2 := safeRun(c.Run, rp.Ops), safeRun(c.Run, rp.Ops)
+		if n, err := strconv.Atoi(os.Getenv("VERIF_REPLAY_REPEAT")); err == nil && n > 0 {
+			// timing-dependent failures (goroutines the code under test starts itself): repeat until one shows
+			for i := 0; i < n && o1.Verdict == OK && o2.Verdict == OK; i++ {
+				o1 = safeRun(c.Run, rp.Ops)
+				o2 = o1
+			}
+		}
 		rt.SlotClear(0)
 		fmt.Printf("REPLAY %s %v\n", c.Name, c.names(rp.Ops))
 		if o1.Verdict != o2.Verdict || o1.Msg != o2.Msg {
